@@ -10,6 +10,7 @@ import socket
 import sys
 
 CLIENT = ("10.77.77.77", "7777")
+OTHER_CLIENT = ("10.99.99.99", "9999")
 MARK = "##C20-FAULT##"
 LOGRE = re.compile(r"^(\S+) \[(\w+)/(\w+)\] EXCEPTION (\w+): ")
 
@@ -38,6 +39,7 @@ class Wfile:
         self.closed = False
         self.final = b""
         self.faulted = False
+        self.interleave = None
 
     def write(self, data):
         k = self.n
@@ -47,6 +49,15 @@ class Wfile:
             if not self.faulted:
                 self.faulted = True
                 self.drv._logsink.append(MARK)
+                if self.interleave is not None:
+                    # another connection, from another address, is served to the end at this very
+                    # moment (what a threading server does all the time)
+                    saved = list(self.drv._logsink)
+                    try:
+                        self.interleave()
+                    finally:
+                        other = [l for l in self.drv._logsink]
+                        self.drv._logsink[:] = saved + ["##OTHER## " + l for l in other]
             raise make_error(self.cls)
         self.failing = False
         if self.events is not None:
@@ -199,7 +210,13 @@ def op_c20_sweep(job, drv):
             gc.collect()
             leak0 = fd_new(fd0, fd_snapshot())
             kids0 = children()
-            entry = {"name": rq["name"], "events": "".join(tr.events), "writes": wf.n, "exc": base["exc"],
+            served_by = None
+            for line in base["log"]:
+                m = re.match(r"^\S+ \[(\w+)/\w+\]", line)
+                if m and m.group(1) != "None":
+                    served_by = m.group(1)
+                    break
+            entry = {"name": rq["name"], "served_by": served_by, "events": "".join(tr.events), "writes": wf.n, "exc": base["exc"],
                      "children": kids0,
                      "out": drv.b2s(wf.final[:200]), "log": base["log"][-4:], "fd_left": leak0, "cases": []}
             ks = range(wf.n) if job.get("every_index", True) else sorted(set([0, wf.n // 2, max(wf.n - 1, 0)]))
@@ -209,6 +226,9 @@ def op_c20_sweep(job, drv):
                         gc.collect()
                         before = fd_snapshot()
                         fw = Wfile(drv, fail_at=k, cls=cls, span=span)
+                        if job.get("interleave", True):
+                            fw.interleave = lambda: drv.serve_once(w.config, b"/small.txt\r\n", tls=False,
+                                                                   client=OTHER_CLIENT)
                         r = drv.serve_once(w.config, data, tls=tls, client=CLIENT, wfile=fw)
                         nogc = fd_new(before, fd_snapshot())
                         gc.collect()
@@ -286,7 +306,8 @@ def op_c20_live(job, drv):
         return done[0] >= made[0]
 
     def client(r, complete):
-        s = so.create_connection(srv.server_address[:2], timeout=10)
+        s = so.create_connection(srv.server_address[:2], timeout=10,
+                                 source_address=(r.get("source", "127.0.0.1"), 0))
         made[0] += 1
         got = 0
         err = None
@@ -301,6 +322,17 @@ def op_c20_live(job, drv):
                 if not d:
                     break
                 got += len(d)
+            if r.get("overlap") and not complete:
+                # while this transfer is under way another client, from another address, is served to the end
+                o = so.create_connection(srv.server_address[:2], timeout=10, source_address=(r["overlap"], 0))
+                made[0] += 1
+                try:
+                    o.sendall(b"/small.txt\r\n")
+                    while o.recv(1 << 16):
+                        pass
+                finally:
+                    o.close()
+                time.sleep(0.05)
             if how == "stall":
                 # stop reading until the server's send timeout (SO_SNDTIMEO) has fired
                 t0 = time.time()
@@ -351,7 +383,7 @@ def op_c20_live(job, drv):
                 m = LOGRE.match(line)
                 if m:
                     recs.append([m.group(4), m.group(1), m.group(2)])
-            out["clients"].append({"name": r["name"], "received": got, "client_error": err, "settled": settled,
+            out["clients"].append({"name": r["name"], "source": r.get("source", "127.0.0.1"), "received": got, "client_error": err, "settled": settled,
                                    "records": recs, "escaped": list(escaped), "fd_nogc": nogc, "fd_left": left,
                                    "children": kids,
                                    "log": list(drv._logsink)[-4:]})
